@@ -52,7 +52,7 @@ type c20Obs struct {
 
 func (*c20) ID() string { return "C20" }
 func (*c20) CoqImport() string {
-	return "From Helm Require Import Values.Tree Misc.Panics Misc.PanicsStorage Misc.PanicsDeps Misc.PanicsIndex Misc.PanicsSort Misc.PanicsSchema Values.Strvals Values.Coalesce Run.RunC20."
+	return "From Helm Require Import Values.Tree Misc.Panics Misc.PanicsStorage Misc.PanicsDeps Misc.PanicsIndex Misc.PanicsSort Misc.PanicsSchema Misc.PanicsStrvalsLex Values.Coalesce Run.RunC20."
 }
 func (*c20) Rule() string {
 	return "structured stream (storage records decodable/undecodable/without info x Get/List/Query/ListDeployed/Deployed/Last on Secrets and ConfigMaps; " +
